@@ -27,6 +27,30 @@ def run(rep, F, ctx):
         ok = ctors.count('multiple_home_symbols') >= 1 and ctors.count('invalid_expansion') >= 2
         rep.add('FAIL-EXITS', 'failexits:expand', 'expand can fail with MultipleHomeSymbols and (twice) InvalidExpansion', ok, '%s:%d' % (B.file, B.line),
                 '' if ok else 'error constructors found in expand: %s' % ctors)
+    rep.rule('TILDE-COUNT', 'the number that selects the home-expansion arms of expand is str::matches(\'~\').count() over the WHOLE path string (every \'~\' character '
+             'counts, also inside a component), and the MultipleHomeSymbols exit is taken exactly on count > 1')
+    fn = 'sys::fs::path::expand'
+    if fn in F.bodies:
+        from panics import skey_call, sdesc_operand, known_facts
+        from mir import op_local
+        B = cg.body(fn)
+        keys = [skey_call(B, t) for i, t in B.calls()]
+        ok_count = "count(matches(to_string(arg1)?,126))" in keys
+        # the guard of the multiple-home error compares that count with 1
+        ok_guard = False
+        for i, t in B.calls():
+            if (t.get('callee') or '').endswith('PathError>::multiple_home_symbols'):
+                for d in B.dom[i]:
+                    tt = B.term(d)
+                    if tt['k'] == 'switch' and tt.get('discr_ty') == 'bool':
+                        dl = op_local(tt['discr'])
+                        ds = B.whole_defs(dl) if dl is not None else []
+                        if len(ds) == 1 and ds[0][0] == 'assign' and ds[0][4]['k'] == 'binop' and ds[0][4]['op'] == 'Gt':
+                            l, r = sdesc_operand(B, ds[0][4]['l']), sdesc_operand(B, ds[0][4]['r'])
+                            if l == 'count(matches(to_string(arg1)?,126))' and r == '1':
+                                ok_guard = True
+        rep.add('TILDE-COUNT', 'tildecount:expand', 'expand counts every ~ of the whole string and rejects more than one', ok_count and ok_guard, '%s:%d' % (B.file, B.line),
+                '' if (ok_count and ok_guard) else 'expand does not select its home-expansion arm by count(matches(whole path string, \'~\')) > 1 (count found: %s, guard found: %s): a ~ inside a component is not seen' % (ok_count, ok_guard))
     return engine.finish(
         rep, 'other', EXPLANATION,
         assumptions=['std::env::var returns Err for an unset (or non-unicode) variable'],
